@@ -397,6 +397,40 @@ example :
                   | _ => false)
      | _ => false) = true := by decide
 
+/-! ## the Loader route: a resolved reference is printed as the reference -/
+
+/-- Reference wrappers (all ten are instances of the one template: `ref_wrappers_uniform`): after the loader
+    has filled `Value`, the marshaller prints exactly what it prints for the unresolved wrapper — the `$ref`
+    text alone, nothing of the resolved value. -/
+theorem resolved_wrapper_marshal (w : Wrapper) (target : JV) (h : w.ref ≠ "") :
+    (w.resolved target).marshal = w.marshal ∧ w.marshal = .obj [("$ref", .str w.ref)] := by
+  simp [Wrapper.marshal, Wrapper.resolved, h]
+
+/-- … and that is what the deep model writes for a reference, with or without siblings next to `$ref` -/
+theorem rt_ref_is_wrapper_marshal (n : Nat) (w : String) (d : Desc) (r : String) (sib : Obj) (target : JV)
+    (hd : findDesc descriptors w = some d) (hr : r ≠ "") :
+    rt descriptors (n + 1) (.ref w) (.obj (("$ref", .str r) :: sib)) =
+      .ok ((Wrapper.resolved ⟨r, none⟩ target).marshal) := by
+  have h1 : refString (("$ref", JV.str r) :: sib) = some r := by simp [refString, lookup, hr]
+  show rtStep descriptors (rt descriptors n) (.ref w) _ = _
+  simp [rtStep, stepRef, hd, h1, Wrapper.marshal, Wrapper.resolved, hr]
+
+/-- Path items have no wrapper: the loader copies the target's fields into the path item and restores its
+    reference text. Any kind with the `$ref` early return prints a record with a non-empty `Ref` as the reference
+    alone, whatever the other fields and the extensions hold — so the resolved path item serialises exactly as
+    the unresolved one. -/
+theorem resolved_refEarly_marshal (f : Shape → JV → Res JV) (d : Desc) (r target : Rec)
+    (h : d.refEarly = true) (hr : (r.fld "Ref").isEmptyStr = false) :
+    marshalDeep f d (r.resolvedFrom target) = marshalDeep f d r ∧
+    marshalDeep f d r = .ok [("$ref", r.fld "Ref")] := by
+  simp [marshalDeep, Rec.resolvedFrom, h, hr]
+
+/-- the kinds that carry their own `$ref` (no wrapper) and are reached by the loader all have the early return -/
+theorem refEarly_kinds :
+    (descriptors.filter (fun d => d.refEarly)).map (·.name) =
+      ["openapi3.PathItem", "openapi2.Parameter", "openapi2.PathItem", "openapi2.Response", "openapi2.SecurityScheme"] := by
+  decide
+
 /-! ## witnesses (inside the exclusions the model differs from the spec) and non-vacuity -/
 
 def requestBodyDesc : Desc := (findDesc descriptors "openapi3.RequestBody").getD default
